@@ -42,42 +42,56 @@ Theorem C17_merge_list_exact_xls :
       (forall n, xls_worksheet_merge_cells_at m n = option_map xs_regions (nth_error wb n)).
 Proof. exact merge_list_exact_xls. Qed.
 
-(* tables: outside the known classes load_tables yields, in the order sheets x relationships,
-   the declared name, sheet, column names and data box of every table *)
+(* names: every legal spelling of a name inside an attribute value (literal text, the five
+   predefined entities, decimal / hexadecimal character references with leading zeros) is read
+   back as the name it stands for *)
+Theorem C17_name_unescape :
+  forall sp : spelling, sp_legal sp = true -> unescape (render_sp sp) = Ok (sp_value sp).
+Proof. exact unescape_render. Qed.
+
+(* tables: load_tables yields, in the order sheets x relationships, a list that shows the
+   declared name, sheet, column names and data box of every table (None for a table without data
+   rows) — for both relationship type URIs, "../" and absolute targets, every legal spelling of
+   the names, every xsd:boolean spelling of insertRow, tables anywhere on the sheet including
+   row 1.  No class of inputs is excepted any more. *)
 Theorem C17_table_meta_exact :
   forall (z : zip) (wb : list sheet_e),
-    legal wb = true -> Forall sheet_dom wb -> known_C17 wb = None -> zip_has_tables z wb ->
-    read_table_metadata z (sheets_of wb) = Ok (spec_tables wb).
+    legal wb = true -> Forall sheet_dom wb -> zip_has_tables z wb ->
+    exists tables,
+      read_table_metadata z (sheets_of wb) = Ok tables /\ map entry_obs tables = spec_tables wb.
 Proof. exact table_meta_exact. Qed.
 
 Theorem C17_table_names :
-  forall (wb : list sheet_e) (name : str),
-    table_names (spec_tables wb) =
+  forall (wb : list sheet_e) (tables : list table_entry) (name : str),
+    map entry_obs tables = spec_tables wb ->
+    table_names tables =
       flat_map (fun s => map (fun tc => tl_name (fst tc)) (se_tables s)) wb /\
-    table_names_in_sheet (spec_tables wb) name =
+    table_names_in_sheet tables name =
       flat_map (fun s => if str_eqb (se_name s) name
                          then map (fun tc => tl_name (fst tc)) (se_tables s) else []) wb.
-Proof. exact (fun wb name => conj (table_names_exact wb) (table_names_in_sheet_exact wb name)). Qed.
+Proof.
+  exact (fun wb tables name H =>
+           conj (table_names_exact wb tables H) (table_names_in_sheet_exact wb tables name H)).
+Qed.
 
 (* the table data is the sheet's values over the reference minus the header rows at the top and
-   the totals rows at the bottom, wherever that box lies relative to the used range [r] of the
-   sheet (inside, partly outside, fully outside, empty sheet): Empty outside the used range *)
+   the totals rows / insert row at the bottom, wherever that box lies relative to the used range
+   [r] of the sheet (inside, partly outside, fully outside, empty sheet): Empty outside the used
+   range; a table without data rows yields the empty range *)
 Theorem C17_table_geometry :
   forall (T : Type) (d : T) (sheet_range : str -> outcome (range T))
          (z : zip) (wb : list sheet_e) (s : sheet_e) (tc : table_l * table_choice) (r : range T),
-    legal wb = true -> Forall sheet_dom wb -> known_C17 wb = None -> zip_has_tables z wb ->
-    NoDup (table_names (spec_tables wb)) ->
+    legal wb = true -> Forall sheet_dom wb -> zip_has_tables z wb ->
+    NoDup (map ts_name (spec_tables wb)) ->
     In s wb -> In tc (se_tables s) ->
     sheet_range (se_name s) = Ok r -> Wf r ->
-    box_cells (fst (data_box (fst tc))) (snd (data_box (fst tc))) <= U32MAX ->
+    box_fits (data_box (fst tc)) ->
     exists tables w,
       read_table_metadata z (sheets_of wb) = Ok tables /\
       table_by_name d sheet_range tables (tl_name (fst tc)) =
         Ok (tl_name (fst tc), se_name s, tl_cols (fst tc), w) /\
-      Wf w /\ rect w = Some (data_box (fst tc)) /\
-      forall q, get_value w q =
-        if in_box (fst (data_box (fst tc))) (snd (data_box (fst tc))) q
-        then Some (cell_or d r q) else None.
+      Wf w /\ rect w = data_box (fst tc) /\
+      forall q, get_value w q = box_value d r (data_box (fst tc)) q.
 Proof. exact table_geometry. Qed.
 
 (* the same with worksheet_range spelled out as Range::from_sparse over the sheet's cells (sorted
@@ -87,21 +101,24 @@ Theorem C17_table_geometry_cells :
   forall (T : Type) (d : T) (cells : list (str * list (pos * T)))
          (z : zip) (wb : list sheet_e) (s : sheet_e) (tc : table_l * table_choice)
          (sc : str * list (pos * T)),
-    legal wb = true -> Forall sheet_dom wb -> known_C17 wb = None -> zip_has_tables z wb ->
-    NoDup (table_names (spec_tables wb)) ->
+    legal wb = true -> Forall sheet_dom wb -> zip_has_tables z wb ->
+    NoDup (map ts_name (spec_tables wb)) ->
     In s wb -> In tc (se_tables s) ->
     find (fun sc => str_eqb (fst sc) (se_name s)) cells = Some sc ->
     pre empty (OFromSparse (snd sc)) ->
-    box_cells (fst (data_box (fst tc))) (snd (data_box (fst tc))) <= U32MAX ->
+    box_fits (data_box (fst tc)) ->
     exists tables w r,
       read_table_metadata z (sheets_of wb) = Ok tables /\
       from_sparse d (snd sc) = Ok r /\ rect r = tight_bbox (map fst (snd sc)) /\
       table_by_name d (sheet_range_of d cells) tables (tl_name (fst tc)) =
         Ok (tl_name (fst tc), se_name s, tl_cols (fst tc), w) /\
-      rect w = Some (data_box (fst tc)) /\
+      rect w = data_box (fst tc) /\
       forall q, get_value w q =
-        if in_box (fst (data_box (fst tc))) (snd (data_box (fst tc))) q
-        then Some (if in_rect r q then last_write d (snd sc) q else d) else None.
+        match data_box (fst tc) with
+        | Some b => if in_box (fst b) (snd b) q
+                    then Some (if in_rect r q then last_write d (snd sc) q else d) else None
+        | None => None
+        end.
 Proof. exact table_geometry_cells. Qed.
 
 (* the executable correspondence runs linear-time versions of the xls record parser; they are the
@@ -111,63 +128,45 @@ Theorem C17_fast_versions_equal :
   (forall subs, xls_sheets_fast subs = xls_sheets subs).
 Proof. exact (conj parse_merge_cells_fast_eq xls_sheets_fast_eq). Qed.
 
-(* ---------- known classes: witnesses on which the current code departs from the file ---------- *)
-Theorem C17_refuted_EscapedText :
-  exists wb, legal wb = true /\ Forall sheet_dom wb /\ known_C17 wb = Some K_ESCAPED_TEXT /\
-    read_table_metadata (build_zip wb) (sheets_of wb) <> Ok (spec_tables wb).
-Proof.
-  exact (ex_intro _ _ (let '(conj a (conj b (conj c (conj _ e)))) := refuted_escaped_text in
-                       conj a (conj (wb_domb_ok _ b) (conj c e)))).
-Qed.
-Theorem C17_refuted_AbsoluteTarget :
-  exists wb, legal wb = true /\ Forall sheet_dom wb /\ known_C17 wb = Some K_ABSOLUTE_TARGET /\
-    read_table_metadata (build_zip wb) (sheets_of wb) <> Ok (spec_tables wb).
-Proof.
-  exact (ex_intro _ _ (let '(conj a (conj b (conj c (conj _ e)))) := refuted_absolute_target in
-                       conj a (conj (wb_domb_ok _ b) (conj c e)))).
-Qed.
-Theorem C17_refuted_StrictType :
-  exists wb, legal wb = true /\ Forall sheet_dom wb /\ known_C17 wb = Some K_STRICT_TYPE /\
-    read_table_metadata (build_zip wb) (sheets_of wb) <> Ok (spec_tables wb).
-Proof.
-  exact (ex_intro _ _ (let '(conj a (conj b (conj c (conj _ e)))) := refuted_strict_type in
-                       conj a (conj (wb_domb_ok _ b) (conj c e)))).
-Qed.
-Theorem C17_refuted_InsertRowFalse :
-  exists wb, legal wb = true /\ Forall sheet_dom wb /\ known_C17 wb = Some K_INSERT_ROW_FALSE /\
-    read_table_metadata (build_zip wb) (sheets_of wb) <> Ok (spec_tables wb).
-Proof.
-  exact (ex_intro _ _ (let '(conj a (conj b (conj c (conj _ e)))) := refuted_insert_row_false in
-                       conj a (conj (wb_domb_ok _ b) (conj c e)))).
-Qed.
-(* header-only table: the load succeeds with an inverted box and table_by_name panics *)
-Theorem C17_refuted_EmptyData :
-  exists wb tables name, legal wb = true /\ Forall sheet_dom wb /\ known_C17 wb = Some K_EMPTY_DATA /\
-    read_table_metadata (build_zip wb) (sheets_of wb) = Ok tables /\
-    table_by_name 0 (fun _ => Ok (@empty N)) tables name = Panic.
-Proof.
-  exact (ex_intro _ _ (ex_intro _ _ (ex_intro _ _
-           (let '(conj a (conj b (conj c (conj e (conj f _))))) := refuted_empty_data in
-            conj a (conj (wb_domb_ok _ b) (conj c (conj e f))))))).
-Qed.
-
-(* ---------- non-vacuity ---------- *)
+(* ---------- non-vacuity ----------
+   The example workbook meets every hypothesis of the xlsx theorems and uses each form that the
+   first round had to except as a known class (strict type URI, absolute target, escaped names
+   with named entities and character references, insertRow="false", a header-only table, a
+   totals-only table in row 1). *)
 Example C17_xlsx_nonvacuous :
-  legal ex_wb = true /\ Forall sheet_dom ex_wb /\ known_C17 ex_wb = None /\
+  legal ex_wb = true /\ Forall sheet_dom ex_wb /\
   zip_has_sheets (build_zip ex_wb) ex_wb /\ zip_has_tables (build_zip ex_wb) ex_wb /\
-  NoDup (map se_name ex_wb) /\ NoDup (table_names (spec_tables ex_wb)) /\
+  NoDup (map se_name ex_wb) /\ NoDup (map ts_name (spec_tables ex_wb)) /\
   read_merged_regions (build_zip ex_wb) (sheets_of ex_wb) =
     Ok [(x_S1, s_xl_worksheets ++ x_sheet1, ((0, 0), (1, 1)));
         (x_S1, s_xl_worksheets ++ x_sheet1, ((1048575, 16383), (1048575, 16383)));
         (x_S1, s_xl_worksheets ++ x_sheet1, ((2, 26), (3, 702)))] /\
   read_table_metadata (build_zip ex_wb) (sheets_of ex_wb) =
-    Ok [(x_T1, x_S1, [x_a; x_b], ((2, 1), (3, 2)))].
+    Ok [(x_T1, x_S1, [x_PL; x_blt], ((2, 1), (3, 2)));
+        (x_H, x_S1, [x_a; x_b], ((7, 1), (6, 2)));
+        (x_X, x_S1, [x_a; x_b], ((1, 4), (0, 5)))] /\
+  spec_tables ex_wb =
+    [(x_T1, x_S1, [x_PL; x_blt], Some ((2, 1), (3, 2)));
+     (x_H, x_S1, [x_a; x_b], None); (x_X, x_S1, [x_a; x_b], None)].
 Proof. exact ex_wb_nonvacuous. Qed.
 
+Example C17_name_nonvacuous :
+  let sp := [PLit [98]; PNamed 38; PDec 60 3; PHex 228 2 true; PHex 128512 6 false] in
+  sp_legal sp = true /\
+  render_sp sp = [98; 38; 97; 109; 112; 59; 38; 35; 48; 54; 48; 59; 38; 35; 120; 69; 52; 59;
+                  38; 35; 120; 48; 49; 102; 54; 48; 48; 59] /\      (* b&amp;&#060;&#xE4;&#x01f600; *)
+  sp_value sp = [98; 38; 60; 195; 164; 240; 159; 152; 128].         (* b&<ä + U+1F600 in UTF-8 *)
+Proof. exact (conj eq_refl (conj eq_refl eq_refl)). Qed.
+
 Example C17_table_data_nonvacuous :
-  table_by_name 0 (fun _ => from_sparse 0 [((0, 0), 7); ((2, 1), 5)])
-                [(x_T1, x_S1, [x_a; x_b], ((2, 1), (3, 2)))] x_T1 =
-  Ok (x_T1, x_S1, [x_a; x_b], mkRange (2, 1) (3, 2) [5; 0; 0; 0]).
+  let tables := [(x_T1, x_S1, [x_PL; x_blt], ((2, 1), (3, 2)));
+                 (x_H, x_S1, [x_a; x_b], ((7, 1), (6, 2)));
+                 (x_X, x_S1, [x_a; x_b], ((1, 4), (0, 5)))] in
+  let range := fun _ : str => from_sparse 0 [((0, 0), 7); ((2, 1), 5)] in
+  table_by_name 0 range tables x_T1 =
+    Ok (x_T1, x_S1, [x_PL; x_blt], mkRange (2, 1) (3, 2) [5; 0; 0; 0]) /\
+  table_by_name 0 range tables x_H = Ok (x_H, x_S1, [x_a; x_b], empty) /\
+  table_by_name 0 range tables x_X = Ok (x_X, x_S1, [x_a; x_b], empty).
 Proof. exact ex_table_data. Qed.
 
 Example C17_cells_nonvacuous : pre (@empty N) (OFromSparse [((0, 0), 7); ((2, 1), 5)]).
@@ -193,8 +192,11 @@ Check C17_merge_ref_roundtrip :
     get_dimension (render_ref st lower d) = Ok d.
 Check C17_table_meta_exact :
   forall (z : zip) (wb : list sheet_e),
-    legal wb = true -> Forall sheet_dom wb -> known_C17 wb = None -> zip_has_tables z wb ->
-    read_table_metadata z (sheets_of wb) = Ok (spec_tables wb).
+    legal wb = true -> Forall sheet_dom wb -> zip_has_tables z wb ->
+    exists tables,
+      read_table_metadata z (sheets_of wb) = Ok tables /\ map entry_obs tables = spec_tables wb.
+Check C17_name_unescape :
+  forall sp : spelling, sp_legal sp = true -> unescape (render_sp sp) = Ok (sp_value sp).
 Check C17_merge_list_exact_xls :
   forall wb : list xls_sheet_e,
     forallb xls_sheet_legal wb = true -> Forall xls_sheet_dom wb -> NoDup (map xs_name wb) ->
@@ -205,30 +207,24 @@ Check C17_merge_list_exact_xls :
 Check C17_table_geometry :
   forall (T : Type) (d : T) (sheet_range : str -> outcome (range T))
          (z : zip) (wb : list sheet_e) (s : sheet_e) (tc : table_l * table_choice) (r : range T),
-    legal wb = true -> Forall sheet_dom wb -> known_C17 wb = None -> zip_has_tables z wb ->
-    NoDup (table_names (spec_tables wb)) ->
+    legal wb = true -> Forall sheet_dom wb -> zip_has_tables z wb ->
+    NoDup (map ts_name (spec_tables wb)) ->
     In s wb -> In tc (se_tables s) ->
     sheet_range (se_name s) = Ok r -> Wf r ->
-    box_cells (fst (data_box (fst tc))) (snd (data_box (fst tc))) <= U32MAX ->
+    box_fits (data_box (fst tc)) ->
     exists tables w,
       read_table_metadata z (sheets_of wb) = Ok tables /\
       table_by_name d sheet_range tables (tl_name (fst tc)) =
         Ok (tl_name (fst tc), se_name s, tl_cols (fst tc), w) /\
-      Wf w /\ rect w = Some (data_box (fst tc)) /\
-      forall q, get_value w q =
-        if in_box (fst (data_box (fst tc))) (snd (data_box (fst tc))) q
-        then Some (cell_or d r q) else None.
+      Wf w /\ rect w = data_box (fst tc) /\
+      forall q, get_value w q = box_value d r (data_box (fst tc)) q.
 
 Print Assumptions C17_merge_ref_roundtrip.
 Print Assumptions C17_merge_list_exact_xlsx.
 Print Assumptions C17_merge_list_exact_xls.
+Print Assumptions C17_name_unescape.
 Print Assumptions C17_table_meta_exact.
 Print Assumptions C17_table_names.
 Print Assumptions C17_table_geometry.
 Print Assumptions C17_table_geometry_cells.
 Print Assumptions C17_fast_versions_equal.
-Print Assumptions C17_refuted_EscapedText.
-Print Assumptions C17_refuted_AbsoluteTarget.
-Print Assumptions C17_refuted_StrictType.
-Print Assumptions C17_refuted_InsertRowFalse.
-Print Assumptions C17_refuted_EmptyData.
